@@ -199,7 +199,7 @@ def _ptr_eq(ctx):
     ctx.equiv(
         "__eq__",
         lambda it: it.run_function(method(ptr.JSONPointer, "__eq__"), [pointer_obj(it, Py.tuple(a)), pointer_obj(it, Py.tuple(b))], {}),
-        lambda it: S.mk_bool(S.py_eq(Py.tuple(a), Py.tuple(b))),
+        lambda it: it.run_function(spec_fn(pspec, "same_tokens"), [Py.tuple(a), Py.tuple(b)], {}),
     )
 
 
